@@ -18,7 +18,7 @@ from . import common, gen_tables
 from .common import Driver, enc, dec
 
 LEVEL = "proof"
-PROP_MODULES = ["MwVerif.Props.C12"]
+PROP_MODULES = ["MwVerif.Props.C12", "MwVerif.Gen.SiteWF"]
 MARKS = "‎‏"
 
 
